@@ -164,7 +164,9 @@ func scribbleValue(v reflect.Value) {
 			scribbleValue(nv) // shared parts of the entry are overwritten in place, the entry itself is replaced
 			v.SetMapIndex(k, nv)
 		}
-		v.SetMapIndex(reflect.ValueOf(poisonString).Convert(v.Type().Key()), reflect.Zero(et))
+		if v.Type().Key().Kind() == reflect.String {
+			v.SetMapIndex(reflect.ValueOf(poisonString).Convert(v.Type().Key()), reflect.Zero(et))
+		}
 	case reflect.Struct:
 		for i := 0; i < v.NumField(); i++ {
 			scribbleValue(v.Field(i))
